@@ -484,6 +484,10 @@ def check_wsgi(p: Program, rep: Report) -> None:
             ok = True
     if ok:
         rep.ok("R5.3", "StatusStringMapping falls back to f'{status} <reason>' for unknown codes")
+    elif fac_body is None and not (isinstance(ssm, ast.Call) and ast.unparse(ssm.func).split(".")[-1] == "defaultdict"):
+        # the table is not `defaultdict(<factory>, ...)` written in place (it is built by a helper, a loop at import time ...):
+        # where its fallback for unknown codes comes from is not read by this rule
+        rep.undecide("R5.3", f"StatusStringMapping is built by `{ast.unparse(ssm)[:60]}`: the fallback for unknown status codes is not recognised")
     else:
         rep.violation("R5.3", construct("baize.wsgi.responses:StatusStringMapping", text=ast.unparse(ssm)[:80]), f"{mod.relpath}:{ssm.lineno}", "unknown status codes do not get an 'NNN reason' status line")
 
